@@ -887,7 +887,7 @@ class Gen:
                 return None
             sub = rng.choice(cand)
             entry, extra = self._entry_for(world, pre, sub)
-            return {"do": "fault", "kind": k, "on": [sub], "entry": entry, **extra}
+            return {"do": "fault", "kind": k, "how": rng.choice(["builtin", "custom"]), "on": [sub], "entry": entry, **extra}
         if k == "shrink_below_support":
             cand = [s for s in subs if world.kind(s) == "F" and (actions.support(pre, s) or 0) >= 2 and pre.sub[s]["dims"] > 0]
             if not cand:
